@@ -1307,3 +1307,34 @@ async fn d32_restore_hard_links_the_wal_into_the_checkpoint() {
 	tree.restore_from_checkpoint(ck.path()).unwrap();
 	assert_eq!(tree.begin().unwrap().get(b"after-restore").unwrap(), None, "D32: second restore of the same checkpoint brings back a post-restore commit");
 }
+
+// D33: checkpointing twice into the same directory.  The second run finds every table already hard-linked there:
+// fs::hard_link fails with EEXIST and the fallback fs::copy(src, dst) opens dst -- a link to the SAME inode as src -- with
+// O_TRUNC.  The live table is truncated to zero bytes.
+#[tokio::test(flavor = "multi_thread")]
+async fn d33_second_checkpoint_into_the_same_directory_truncates_live_tables() {
+	let d = td();
+	let ck = td();
+	let opts = mk_opts(d.path().to_path_buf(), |o| o.flush_on_close = false);
+	{
+		let tree = Tree::new(Arc::clone(&opts)).unwrap();
+		for i in 0..50 {
+			put(&tree, format!("key-{i:03}").as_bytes(), b"value").await;
+		}
+		tree.create_checkpoint(ck.path()).unwrap();
+		let sizes = |p: &std::path::Path| -> Vec<u64> {
+			let mut v: Vec<u64> = std::fs::read_dir(p.join("sstables")).unwrap().filter_map(|e| e.ok()).map(|e| e.metadata().unwrap().len()).collect();
+			v.sort();
+			v
+		};
+		let before = sizes(d.path());
+		tree.create_checkpoint(ck.path()).unwrap(); // periodic checkpoint into the same place
+		let after = sizes(d.path());
+		assert_eq!(before, after, "D33: the second checkpoint changed the size of LIVE table files");
+		tree.close().await.unwrap();
+	}
+	let tree = Tree::new(Arc::clone(&opts)).expect("D33: the store cannot be reopened after the second checkpoint");
+	for i in 0..50 {
+		assert!(tree.begin().unwrap().get(format!("key-{i:03}").as_bytes()).unwrap().is_some(), "D33: key {i} lost");
+	}
+}
